@@ -25,6 +25,10 @@ class SGen(Gen):
         args = []
         for k, t in zip(kinds, ptypes):
             if k == "r":
+                own_refs = [i for i, pt_ in enumerate(self.params) if pt_ == "r"]
+                if own_refs and self.r.random() < 0.6:
+                    args.append(("paramref", self.r.choice(own_refs)))
+                    continue
                 cands = [v for v, ty in self.vars.items() if ty == "u"]
                 v = self.r.choice(cands) if cands else self.new_var("u")
                 args.append(("varref", v))
@@ -201,6 +205,11 @@ def gen_sub_program(rng, version, app):
         if app and version >= 5 and c[3] != "n":
             stmts.append(("op", "log", (), "n", ((("op", "itob", (), "b", (gm.call(c, 1),)) if c[3] == "u" else gm.call(c, 1)),)))
     init = [("op", "store", (("slot", v),), "n", ((I(0) if t == "u" else B(b"")),)) for v, t in gm.vars.items()]
+    # make the final contents of the main routine's variables observable
+    if app and version >= 5:
+        for v, t in gm.vars.items():
+            ld = ("op", "load", (("slot", v),), t, ())
+            stmts.append(("op", "log", (), "n", ((("op", "itob", (), "b", (ld,)) if t == "u" else ld),)))
     main = ("seq",) + tuple(init) + tuple(stmts) + (("exit", I(1)),)
 
     def prepare(b):
